@@ -252,16 +252,24 @@ func c11World(rc *kernel.RunCtx) {
 						failedReqs++
 						k.Count("fault_component_failure", 1)
 						if stream {
-							// documented: partial output, then the error text
+							// The streaming configuration is the comparison arm: partial output is its
+							// documented behaviour and the property demands nothing of it (how much of
+							// the document was flushed before the failure is the component's business,
+							// C10 only says "a prefix"). It is observed, not judged: the probe shows
+							// that the injected failures do reach the client when nothing buffers.
 							var pre []byte
 							if !cancelled {
 								pre = prefixAt(j)
 							}
-							if !bytes.HasPrefix(body, pre) {
-								rc.Fail("C11/streaming-not-prefix", "%s: streamed body %q does not start with the %d bytes rendered before the failure", desc, kernel.Short(string(body), 200), len(pre))
+							l := 0
+							for l < len(body) && l < len(D) && body[l] == D[l] {
+								l++
 							}
-							if len(pre) > 0 {
+							if l > 0 {
 								partials++
+							}
+							if len(pre) > 0 && l >= len(pre) {
+								k.Count("probe_streaming_delivered_everything_rendered_before_the_failure", 1)
 							}
 							continue
 						}
